@@ -10,6 +10,7 @@
 #include "draco/attributes/attribute_octahedron_transform.h"
 #include "draco/attributes/attribute_quantization_transform.h"
 #include "draco/compression/attributes/normal_compression_utils.h"
+#include "draco/compression/config/encoding_features.h"
 #include "draco/compression/decode.h"
 #include "draco/compression/encode.h"
 #include "draco/compression/expert_encode.h"
@@ -221,6 +222,24 @@ inline Geom gen_geometry(vrt::Rng &r, bool want_mesh, const GenParams &gp) {
   return g;
 }
 
+// a side x side grid of float positions (2 * (side-1)^2 faces), no other attribute
+inline Geom grid_mesh(int side) {
+  Geom g; g.is_mesh = true; g.pc.reset(new Mesh()); g.shape = "grid-big";
+  const int np = side * side;
+  g.pc->set_num_points(np);
+  AttDesc d{GeometryAttribute::POSITION, DT_FLOAT32, 3, false, true, np};
+  const int id = add_attribute(g.pc.get(), d, np);
+  for (int y = 0; y < side; ++y) for (int x = 0; x < side; ++x) { const float p[3] = {(float)x, (float)y, (float)((x * 7 + y * 3) % 5) * 0.25f}; g.pc->attribute(id)->SetAttributeValue(AttributeValueIndex(y * side + x), p); }
+  for (int y = 0; y + 1 < side; ++y) for (int x = 0; x + 1 < side; ++x) {
+    const int a = y * side + x;
+    Mesh::Face f1, f2;
+    f1[0] = PointIndex(a); f1[1] = PointIndex(a + 1); f1[2] = PointIndex(a + side);
+    f2[0] = PointIndex(a + 1); f2[1] = PointIndex(a + side + 1); f2[2] = PointIndex(a + side);
+    g.mesh()->AddFace(f1); g.mesh()->AddFace(f2);
+  }
+  return g;
+}
+
 // build a small mesh from explicit position ids and optional per-corner attribute value ids (exhaustive domains)
 inline Geom small_mesh(const std::vector<int> &pos_ids, const std::vector<int> &att_ids /* per corner or empty */, int npos, int natt) {
   Geom g;
@@ -297,6 +316,7 @@ struct Opt {
   int explicit_att = -1;   // attribute quantised with SetAttributeExplicitQuantization(bits, explicit_dims < components, origin, range)
   int explicit_dims = 0;
   float explicit_origin = -3000.f, explicit_range = 8000.f;
+  bool no_predictive = false;   // ExpertEncoder only: EncoderOptions::SetSupportedFeature(features::kPredictiveEdgebreaker, false)
   bool desc_order = false;      // set per-attribute options from the last attribute to the first
   bool reuse_enc = false;       // type-keyed Encoder API only: encode with ONE Encoder object per thread that has served every earlier case (Reset() first)
   bool compress_conn = false;   // sequential meshes: global option "compress_connectivity" (delta + entropy coded indices instead of stored indices)
@@ -358,6 +378,7 @@ inline Encoded encode(const Geom &g, const Opt &o) {
     enc->SetUseBuiltInAttributeCompression(o.builtin);
     if (o.split >= 0) enc->options().SetGlobalBool("split_mesh_on_seams", o.split != 0);
     if (o.compress_conn) enc->options().SetGlobalBool("compress_connectivity", true);
+    if (o.no_predictive) enc->options().SetSupportedFeature(features::kPredictiveEdgebreaker, false);
     // per-attribute options are set in ascending or descending attribute order (the order of the calls is the caller's business)
     for (int ai = 0; ai < (int)o.qbits.size(); ++ai) {
       const int a = o.desc_order ? (int)o.qbits.size() - 1 - ai : ai;
